@@ -451,7 +451,7 @@ impl St {
                 if expect_fail {
                     self.finish_stmt_events();
                     self.events.push("failed_statement".into());
-                } else if has_gen && e.to_lowercase().contains("constraint violated") && had_present {
+                } else if has_gen && e.to_lowercase().contains("constraint violated") && (had_present || rows.iter().any(|r| matches!(r, IdSpec::Val(_)))) {
                     let v = Viol {
                         assertion: "fresh",
                         detail: json!({"statement": sql, "error": e, "how": "a statement asking for a generated id was rejected with a key violation although none of its explicit ids collides: the generated value equals a value the column holds", "present_ids": self.present.iter().filter_map(|(i, _)| *i).collect::<Vec<_>>(), "last_generated": self.last_gen}),
@@ -868,11 +868,12 @@ fn replay(scratch: &Scratch, tag: &str, cfg: &Cfg, ops: &[Op]) -> RunOut {
     out
 }
 
-fn shrink(scratch: &Scratch, tag: &str, cfg: &Cfg, ops: &[Op], assertion: &str, budget: &mut u32) -> (Cfg, Vec<Op>) {
+fn shrink(scratch: &Scratch, tag: &str, cfg: &Cfg, ops: &[Op], assertion: &str, budget: &mut u32, deadline: std::time::Instant, cut_short: &mut bool) -> (Cfg, Vec<Op>) {
     let mut cur: Vec<Op> = ops.to_vec();
     let mut cfg = cfg.clone();
     let mut fails = |cfg: &Cfg, cand: &[Op], budget: &mut u32| -> Option<usize> {
-        if *budget == 0 {
+        if *budget == 0 || std::time::Instant::now() > deadline {
+            *cut_short = true;
             return None;
         }
         *budget -= 1;
@@ -930,6 +931,25 @@ fn shrink(scratch: &Scratch, tag: &str, cfg: &Cfg, ops: &[Op], assertion: &str, 
         }
         oi += 1;
     }
+    // explicit ids that only serve as "some row": let TurDB generate them instead
+    for oi in 0..cur.len() {
+        let n = match &cur[oi] {
+            Op::Insert { rows, .. } => rows.len(),
+            _ => 0,
+        };
+        for ri in 0..n {
+            let mut cand = cur.clone();
+            if let Op::Insert { rows, .. } = &mut cand[oi] {
+                if matches!(rows[ri], Sym::Omit | Sym::Null) {
+                    continue;
+                }
+                rows[ri] = Sym::Omit;
+            }
+            if fails(&cfg, &cand, budget).is_some() {
+                cur = cand;
+            }
+        }
+    }
     if cfg.wal {
         let c2 = Cfg { wal: false, ..cfg.clone() };
         if fails(&c2, &cur, budget).is_some() {
@@ -947,16 +967,17 @@ struct HistOut {
     sample: Option<J>,
     viol: Option<(&'static str, String, J)>,
     shrink_runs: u64,
+    unattributed: u64,
 }
 
 /// one generated history (number `i` of the run) on worker `w`'s scratch directory
-fn one_history(scratch: &Scratch, w: usize, seed: u64, i: u64, may_shrink: bool) -> Result<HistOut, String> {
+fn one_history(scratch: &Scratch, w: usize, seed: u64, i: u64, per_shrink_s: f64, hard_deadline: std::time::Instant) -> Result<HistOut, String> {
     let mut rng = Rng::derive(seed.wrapping_mul(1_000_003).wrapping_add(i), 12);
     let cfg = Cfg { variant: rng.below(VARIANTS.len() as u64) as usize, wal: rng.chance(1, 3) };
     let f = gen_feat(&mut rng);
     let len = rng.usize(8, 32);
     let mut st = St::new(scratch.dir(&format!("w{}h", w)), cfg.clone())?;
-    let mut out = HistOut { evals: 0, stats: Stats::default(), abort: None, nontrivial: None, sample: None, viol: None, shrink_runs: 0 };
+    let mut out = HistOut { evals: 0, stats: Stats::default(), abort: None, nontrivial: None, sample: None, viol: None, shrink_runs: 0, unattributed: 0 };
     let mut ops: Vec<Op> = vec![];
     let mut sp_next = 0u8;
     let mut sps: Vec<u8> = vec![];
@@ -993,10 +1014,17 @@ fn one_history(scratch: &Scratch, w: usize, seed: u64, i: u64, may_shrink: bool)
     let _ = catch(move || drop(db));
     drop(st);
     if let Some(v) = viol {
-        let mut budget: u32 = if may_shrink { 150 } else { 0 };
+        let mut budget: u32 = 150;
         let tag = format!("w{}s", w);
-        let (mcfg, mops) = shrink(scratch, &tag, &cfg, &ops, v.assertion, &mut budget);
+        let mut cut_short = false;
+        let deadline = (std::time::Instant::now() + std::time::Duration::from_secs_f64(per_shrink_s)).min(hard_deadline);
+        let (mcfg, mops) = shrink(scratch, &tag, &cfg, &ops, v.assertion, &mut budget, deadline, &mut cut_short);
         out.shrink_runs = (150 - budget.min(150)) as u64;
+        if cut_short {
+            // an incompletely shrunk history would give an unstable signature: not attributed
+            out.unattributed = 1;
+            return Ok(out);
+        }
         let r = replay(scratch, &tag, &mcfg, &mops);
         let (mv, mlog) = match r.viol {
             Some((mv, _)) if mv.assertion == v.assertion => (mv, r.log),
@@ -1027,8 +1055,9 @@ pub fn run(a: &Args) -> i32 {
     let quick = ctx.quick();
     let scratch = Scratch::new("c12");
     let max_hist: u64 = if quick { 600 } else { 12000 };
-    let explore_s = if quick { 30.0 } else { 380.0 };
-    let hard_s = if quick { 45.0 } else { 520.0 };
+    let explore_s = if quick { 27.0 } else { 380.0 };
+    let hard_s = if quick { 42.0 } else { 520.0 };
+    let per_shrink_s = if quick { 8.0 } else { 40.0 };
     let threads = 8usize;
     let mut gens_after: BTreeMap<String, u64> = BTreeMap::new();
     let mut aborts: BTreeMap<String, u64> = BTreeMap::new();
@@ -1050,7 +1079,7 @@ pub fn run(a: &Args) -> i32 {
                 if i >= max_hist || el > explore_s {
                     break;
                 }
-                let r = match catch(|| one_history(scratch, w, seed, i, t0.elapsed().as_secs_f64() < hard_s)) {
+                let r = match catch(|| one_history(scratch, w, seed, i, per_shrink_s, t0 + std::time::Duration::from_secs_f64(hard_s))) {
                     Ok(r) => r,
                     Err(p) => Err(format!("harness panic: {}", p)),
                 };
@@ -1090,6 +1119,7 @@ pub fn run(a: &Args) -> i32 {
                 abort_examples.entry(r).or_insert(ex);
             }
             shrink_runs += o.shrink_runs;
+            ctx.count("violations_not_attributed_shrink_cut_by_time_budget", o.unattributed);
             if let Some((assertion, sig, detail)) = o.viol {
                 ctx.violation(assertion, &sig, detail);
             }
